@@ -173,7 +173,7 @@ def path(J, ctx, kind, m, n, cfg):
 
 def run_job(job):
     J = Job(job)
-    return run_paths(J, lambda ctx: path(J, ctx, job["kind"], job["m"], job["n"], job["cfg"]), max_paths=200)
+    return run_paths(J, lambda ctx: path(J, ctx, job["kind"], job["m"], job["n"], job["cfg"]), max_paths=200, timeout_ms=400000 if job.get("tier") == "thorough" else 90000)
 
 
 # --------------------------------------------------------------------------- validation & replay
